@@ -169,15 +169,16 @@ fn on_install() {
 // ---------------------------------------------------------------------------------------------
 
 const NONE: u64 = u64::MAX;
-const PENDING: u64 = u64::MAX - 1;
 
 struct Shared {
     tree: AnyTree,
     seqno: SequenceNumberCounter,
     visible: SequenceNumberCounter,
     published: AtomicU64,
-    /// writer's in-flight marker: NONE, PENDING (about to draw a seqno) or the drawn seqno
+    /// writer's in-flight marker: NONE or the drawn seqno
     inflight: AtomicU64,
+    /// makes "draw a seqno + set the marker" atomic with respect to "read visible + read the marker"
+    draw: Mutex<()>,
     /// per key: (seqno, value or None) in write order
     log: RwLock<Vec<Vec<(u64, Option<Vec<u8>>)>>>,
     /// per key: number of log records whose write has fully returned (acknowledged)
@@ -231,9 +232,13 @@ impl Shared {
     /// already published", and nothing is claimed for it.
     fn open_snapshot(&self) -> Option<u64> {
         let mut l = self.live.lock().unwrap_or_else(|e| e.into_inner());
-        let s = self.visible.get();
-        let f = self.inflight.load(Ordering::SeqCst);
-        if f != NONE && f != PENDING && f < s {
+        let (s, f) = {
+            // under the draw mutex the marker is either NONE (no seqno drawn that is not yet
+            // acknowledged) or the drawn seqno — never "drawn but not marked yet"
+            let _g = self.draw.lock().unwrap_or_else(|e| e.into_inner());
+            (self.visible.get(), self.inflight.load(Ordering::SeqCst))
+        };
+        if f != NONE && f < s {
             return None;
         }
         *l.entry(s).or_insert(0) += 1;
@@ -335,9 +340,12 @@ fn writer(sh: &Shared, seed: u64, n_ops: usize) -> Result<(), Violation> {
         if sh.stop.load(Ordering::Relaxed) {
             break;
         }
-        sh.inflight.store(PENDING, Ordering::SeqCst);
-        let s = sh.seqno.next();
-        sh.inflight.store(s, Ordering::SeqCst);
+        let s = {
+            let _g = sh.draw.lock().unwrap_or_else(|e| e.into_inner());
+            let s = sh.seqno.next();
+            sh.inflight.store(s, Ordering::SeqCst);
+            s
+        };
         let n = if rng.chance(1, 6) { rng.range(2, 4) as usize } else { 1 };
         // 1. log the intent (a reader may already observe the write from here on)
         let mut recs: Vec<(usize, Option<Vec<u8>>)> = vec![];
@@ -716,6 +724,7 @@ fn setup(seed: u64, case: u64, dir: &Path) -> Result<(Arc<Shared>, TreeCfg, J), 
         visible,
         published: AtomicU64::new(0),
         inflight: AtomicU64::new(NONE),
+        draw: Mutex::new(()),
         log: RwLock::new(vec![vec![]; gkeys.len()]),
         acked: (0..gkeys.len()).map(|_| std::sync::atomic::AtomicUsize::new(0)).collect(),
         live: Mutex::new(BTreeMap::new()),
